@@ -523,3 +523,69 @@ GROUPS["p7"] = [
       "            match val {\n                None => continue,\n                Some(_) => {\n                    self.inner.insert(key.to_string(), *val);\n                }\n            }",
       None),
 ]
+
+# ---- ordinary, property-respecting development: the checks must stay silent ---------------------------
+_NEW_RULE = """mod very_very {
+    use crate::patterns::{Pattern, SequencePattern};
+    use crate::{Token, TokenStringExt};
+
+    use super::{Lint, LintKind, PatternLinter, Suggestion};
+
+    /// Flags a doubled "very".
+    pub struct VeryVery {
+        pattern: Box<dyn Pattern>,
+    }
+
+    impl Default for VeryVery {
+        fn default() -> Self {
+            Self {
+                pattern: Box::new(
+                    SequencePattern::default()
+                        .then_any_capitalization_of("very")
+                        .then_whitespace()
+                        .then_any_capitalization_of("very"),
+                ),
+            }
+        }
+    }
+
+    impl PatternLinter for VeryVery {
+        fn pattern(&self) -> &dyn Pattern {
+            self.pattern.as_ref()
+        }
+
+        fn match_to_lint(&self, matched_tokens: &[Token], source: &[char]) -> Option<Lint> {
+            let first = matched_tokens.first()?.span.get_content(source).to_vec();
+
+            Some(Lint {
+                span: matched_tokens.span()?,
+                lint_kind: LintKind::Repetition,
+                suggestions: vec![Suggestion::ReplaceWith(first)],
+                message: "One \u{201c}very\u{201d} is enough.".to_string(),
+                priority: 126,
+            })
+        }
+
+        fn description(&self) -> &'static str {
+            "Flags a doubled `very`."
+        }
+    }
+}
+pub use very_very::VeryVery;
+mod that_which;
+"""
+GROUPS["p8"] = [
+    # a new pattern rule, registered in the curated group
+    E("p-new-pattern-rule", ["C01", "C03", "C05", "C11", "C12"], "harper-core/src/linting/mod.rs", "mod that_which;\n", _NEW_RULE, None),
+    E("p-new-pattern-rule-registered", ["C11"], "harper-core/src/linting/lint_group.rs",
+      "        insert_pattern_rule!(ThatWhich, true);", "        insert_pattern_rule!(ThatWhich, true);\n        insert_pattern_rule!(VeryVery, true);", None),
+    E("p-new-pattern-rule-import", ["C11"], "harper-core/src/linting/lint_group.rs",
+      "use super::that_which::ThatWhich;", "use super::VeryVery;\nuse super::that_which::ThatWhich;", None),
+    # a log line in the server
+    E("p-log-line", ["C09", "C10", "C07"], "harper-ls/src/backend.rs",
+      "        let source: Vec<char> = text.chars().collect();\n        let ts_parser",
+      "        info!(\"Linting a document of {} bytes.\", text.len());\n        let source: Vec<char> = text.chars().collect();\n        let ts_parser", None),
+    # a reworded message
+    E("p-reworded-message", ["C17"], "harper-core/src/linting/correct_number_suffix.rs",
+      "This number needs a different suffix to sound right.", "This number takes a different suffix.", None),
+]
